@@ -253,6 +253,10 @@ def run(chk, tier):
     chk.guard('C16.b', lambda: c16.rule_hash(chk, prog, tier))
     chk.guard('C01.a', lambda: c01.rule_binop(chk, prog, tier))
     chk.guard('C01.e', lambda: c01.rule_jnz(chk, prog, tier))      # the compiler's own code branches on 64-bit values (sizes, hashes, constants): the whole value is tested
+    from props import c15
+    chk.guard('C15.abc', lambda: c15.rule_orders(chk, prog, tier))      # the compiler's own switches (scan.c, expr.c, decl.c, eval.c, qbe.c) have more than five labels in non-monotonic order: the tree that orders them
+    from props import c07
+    chk.guard('C07.a', lambda: c07.rule_parseinit(chk, prog, tier))       # the initialiser parser the compiler's own tables go through: no decision on storage it has not written (a host-compiler-dependent accept/reject)
     from props import c05
     chk.guard('C05.c', lambda: c05.rule_binary_types(chk, prog, tier))     # the operand conversions the compiler's own arithmetic (eval.c: 64-bit shifts, comparisons) is compiled with
     from props import c03
